@@ -153,6 +153,9 @@ def invalid_case(fam, port, variant, seed, part, wide):
     tag = f"{fam} {variant} port={port}"
     args = list(range(-300, 301)) + [65536, 65536 + 50, 65636, -65436, -65536 + 100, 2 ** 32 + 50, 131072 + 7] + ([-70000, -65536, -32769, -32768, -1000, 1000, 32767, 32768, 65535, 65536, 70000] if wide else [-70000, -32768, 70000]) + \
         [rnd.randrange(-70000, 70001) for _ in range(30 if wide else 6)]
+    # ... and the integer constants of the source under test beyond that range (a bound check can only go wrong at its constant)
+    hv_ = [v for v in env.harvest_ints() if abs(v) > 300]
+    args += hv_ if wide else rnd.sample(hv_, min(60, len(hv_)))
 
     async def flow(loop):
         inv = models.family_cls(g, fam)("inv0", port, 0, 1, 0)
